@@ -101,7 +101,7 @@ def reader_tables(prog):
         rname = strip_generics(root).split("::")[-1]
         if not rname.startswith("parse_"):
             continue
-        is_closure = b.rec["kind"] == "Closure" and "::{closure" in b.id
+        is_closure = b.rec["kind"] == "Closure"
         tab = out.setdefault(rname, {})
         etab = out.setdefault(rname + ":element", {}) if is_closure else None
         for bi, t in b.calls():
